@@ -314,6 +314,9 @@ def rand_case(rng, mode=None):
         sk = rng.choice(pool)
         if aromatic and rng.random() < 0.6:
             sk = rng.choice(['c1ccccc1', 'Cc1ccccc1', 'c1ccncc1'])
+        elif aa and rng.random() < 0.15:
+            # bracket atoms (stored hydrogen count / charge / other element), possibly at a descriptor site
+            sk = rng.choice(['[CH2]C', '[Si](C)(C)O', '[N+](C)(C)C', '[O-]', 'C[NH]C', '[CH3]', 'O[Si](C)(C)'])
         nd = rng.choice([1, 1, 2, 2, 3, 4]) if rng.random() < 0.95 else 0
         defs.append('#%s=%s' % (nm, gens.decorate(rng, sk, nd, kinds=kinds, labels=labels, syms=syms)))
     # make growth possible most of the time: a '>'/'<' descriptor usually gets its complement somewhere
@@ -337,6 +340,14 @@ def rand_case(rng, mode=None):
         sym = {'1': '', '2': '=', '3': '#'}[c[-1]]
         defs[k] = head + '=' + body[:e] + sym + '[' + c[:-1] + ']' + body[e:]
     frags = '{' + ','.join(defs) + '}'
+    small_start = None
+    if aa and len(names) >= 2 and rng.random() < 0.15:
+        # size-mixed set with a small start: a one-atom fragment first, a five/six-atom fragment attached to it
+        o = rng.choice(['', '', '='])
+        defs[0] = '#%s=%s[$]%s%s[$]' % (names[0], o, rng.choice(['O', 'N', 'C', 'S']) if not o else 'C', o)
+        defs[1] = '#%s=%s[$]%s%s[$]' % (names[1], o, rng.choice(['CC(C)(C)C', 'CC(C)CC', 'C(C)(C)CO']), o)
+        frags = '{' + ','.join(defs) + '}'
+        small_start = names[0]
     descs = []
     for d in descriptors_of(frags):
         if d not in descs:
@@ -368,6 +379,8 @@ def rand_case(rng, mode=None):
         masses = {nm: rng.choice([rng.randint(5, 90), round(rng.uniform(5, 90), 2)]) for nm in names}
     target = rng.choice([0, -5, 20, 45, 60.5, 100, 100, 150, 150, 220, 220, 300, 300, 400])
     start = rng.choice(names) if rng.random() < 0.3 else None
+    if small_start:
+        start = small_start
     # targets in near-coincidence with a reachable sum: all fragments get the same user mass m and the target
     # is N*m moved by a relative 5e-6 / an absolute tiny amount, a rounded multiple (33.3333 x 3 vs 100), a
     # huge mass with the target one unit above a multiple, or a tiny positive target
@@ -404,6 +417,16 @@ def rand_case(rng, mode=None):
 
 
 CORPUS = [
+    # a larger fragment attached while the molecule is still smaller (one-atom start)
+    {'frags': '{#A=[$]O[$],#B=[$]CC(C)(C)C[$]}', 'aa': True, 'poly': {}, 'fragreact': {}, 'term': [], 'masses': None,
+     'seed': 1, 'target': 150, 'start': 'A', 'ctor': 'explicit'},
+    {'frags': '{#A=[>]N[<],#B=[<]CC(C)CC[>]}', 'aa': True, 'poly': {}, 'fragreact': {}, 'term': [], 'masses': {'A': 15, 'B': 70},
+     'seed': 2, 'target': 140, 'start': 'A', 'ctor': 'default'},
+    # bracket atoms at bonding sites, masses left to be computed (DMS: target in the n x 1.008 window)
+    {'frags': '{#DMS=[<][Si](C)(C)O[>]}', 'aa': True, 'poly': {}, 'fragreact': {}, 'term': [], 'masses': None,
+     'seed': 1, 'target': 760, 'start': None, 'ctor': 'explicit'},
+    {'frags': '{#A=[$][N+](C)(C)C[$],#B=[$][O-],#D=[$][CH2]C}', 'aa': True, 'poly': {}, 'fragreact': {}, 'term': [], 'masses': None,
+     'seed': 3, 'target': 200, 'start': 'A', 'ctor': 'explicit'},
     # seed 0 is a valid seed: two constructions with it must give the same molecule
     {'frags': '{#A=[$]CC[$],#B=[$]CO[$],#D=[$]N[$]}', 'aa': True, 'poly': {}, 'fragreact': {}, 'term': [], 'masses': None,
      'seed': 0, 'target': 250, 'start': None, 'ctor': 'explicit'},
@@ -458,7 +481,8 @@ FAIL_TEXT16 = {
     3: 'an inter-fragment bond does not join complementary descriptors of equal order (or its order differs)',
     4: 'a descriptor was used more often than the template wrote it on that atom',
     5: 'a fragment copy is not isomorphic to its template through the merge correspondence',
-    6: 'node keys are not 0..n-1 sorted by fragid / fragment membership not canonical',
+    6: ('node keys are not 0..n-1 sorted by fragid / fragment membership not canonical / inside a copy: template atoms '
+        'first, then the hydrogens in the order of their parents, atom name = element + rank of the key in the copy'),
     7: 'all-atom sample violates valence completeness (statement of C09)',
     9: 'the implementation raised an exception although the tables allow growth at that step',
 }
